@@ -7,6 +7,7 @@ import (
 	"go/token"
 	"go/types"
 	"math"
+	"sort"
 	"strings"
 
 	"golang.org/x/tools/go/packages"
@@ -78,9 +79,9 @@ type Evaluator struct {
 }
 
 type SendRec struct {
-	Chan  string
-	V     Value
-	Pos   token.Pos
+	Chan string
+	V    Value
+	Pos  token.Pos
 }
 
 func New(fset *token.FileSet, fd func(*types.Func) (*ast.FuncDecl, *packages.Package)) *Evaluator {
@@ -1656,3 +1657,45 @@ func (ev *Evaluator) native(pos token.Pos, fn *types.Func, recv Value, args []Va
 }
 
 func isLetterHigh(r rune) bool { return false }
+
+// RunUntil interprets the top-level statements of fn's body until stop reports
+// true for a statement (which is not executed) and returns the variables in scope.
+func (ev *Evaluator) RunUntil(fn *types.Func, args []Value, stop func(ast.Stmt) bool) (vars []NamedVar, err error) {
+	decl, pkg := ev.FuncDecl(fn)
+	if decl == nil || decl.Body == nil {
+		return nil, fmt.Errorf("no source for %s", fn.FullName())
+	}
+	env := &Env{vars: map[types.Object]*Var{}, pkg: pkg}
+	info := pkg.TypesInfo
+	i := 0
+	for _, f := range decl.Type.Params.List {
+		for _, n := range f.Names {
+			if obj := info.Defs[n]; obj != nil && i < len(args) {
+				env.define(obj, args[i])
+			}
+			i++
+		}
+	}
+	err = ev.Try(func() {
+		for _, s := range decl.Body.List {
+			if stop(s) {
+				break
+			}
+			if c := ev.stmt(env, s); c.kind != ctrlNone {
+				break
+			}
+		}
+	})
+	for o, v := range env.vars {
+		vars = append(vars, NamedVar{Name: o.Name(), Type: o.Type(), V: v.V})
+	}
+	sort.Slice(vars, func(i, j int) bool { return vars[i].Name < vars[j].Name })
+	return vars, err
+}
+
+// NamedVar is a variable in scope after RunUntil.
+type NamedVar struct {
+	Name string
+	Type types.Type
+	V    Value
+}
